@@ -32,6 +32,12 @@ def bank(rng):
     out.append(("square-plus-one", lambda x: x ** 2 + 1.0, lambda x: np.diag(2.0 * x), np.array([rng.choice([0.3, 0.5, 0.7, 2.0])] * 3), False))
     out.append(("inconsistent-singular-linear", lambda x: np.array([x[0] + x[1] - 1.0, x[0] + x[1] + 1.0]),
                 lambda x: np.array([[1.0, 1.0], [1.0, 1.0]]), np.array([rng.uniform(-1, 1), rng.uniform(-1, 1)]), False))
+    # solvable systems started so far away that the very first trial step makes no progress
+    far = rng.choice([5.0, 8.0, -6.0])
+    out.append(("tanh-far-start", lambda x: np.tanh(x), lambda x: np.diag(1.0 / np.cosh(x) ** 2), np.array([far, -far]), True))
+    out.append(("arctan-far-start", lambda x: np.arctan(x), lambda x: np.diag(1.0 / (1.0 + x ** 2)), np.array([rng.choice([1e3, 1e4])]), True))
+    out.append(("rosenbrock-classic-start", lambda x: np.array([-2 * (1 - x[0]) - 400 * x[0] * (x[1] - x[0] ** 2), 200 * (x[1] - x[0] ** 2)]),
+                lambda x: np.array([[2 - 400 * (x[1] - 3 * x[0] ** 2), -400 * x[0]], [-400 * x[0], 200.0]]), np.array([-1.2, 1.0]), True))
     out.append(("singular-jac", lambda x: np.array([x[0] ** 2, x[1] ** 2 + x[0]]), lambda x: np.array([[2 * x[0], 0.0], [1.0, 2 * x[1]]]), np.array([0.5, 0.5]), True))
     out.append(("matrix-shape", lambda x: x ** 3 - np.array([[1.0, 8.0, 0.125], [27.0, -1.0, 0.001]]), None, np.ones((2, 3)), True))
     out.append(("scalar", lambda x: x ** 3 - 2.0, None, np.array(1.0), True))
